@@ -217,7 +217,7 @@ pub fn shape_strategy(p: &GenParams) -> BoxedStrategy<Shape> {
         (
             prop_oneof![3 => 1u8..=40, 1 => prop::sample::select(vec![1u8, 2, 254, 255]), 1 => any::<u8>()],
             prop_oneof![4 => 1u8..=3, 1 => 4u8..=7],
-            prop_oneof![2 => Just(0u8), 2 => 1u8..=max_grind],
+            if max_grind == 0 { Just(0u8).boxed() } else { prop_oneof![2 => Just(0u8), 2 => 1u8..=max_grind].boxed() },
             1u8..=4,
             0u8..=8,
         ),
